@@ -877,16 +877,25 @@ mod os {
             if let Some(stdin) = stdin {
                 if stdin.as_raw_fd() != 0 {
                     posix::dup2(stdin.as_raw_fd(), 0)?;
+                } else {
+                    // already in place: it only has to survive the exec
+                    posix::fcntl(0, posix::F_SETFD, Some(0))?;
                 }
             }
             if let Some(stdout) = stdout {
                 if stdout.as_raw_fd() != 1 {
                     posix::dup2(stdout.as_raw_fd(), 1)?;
+                } else {
+                    // already in place: it only has to survive the exec
+                    posix::fcntl(1, posix::F_SETFD, Some(0))?;
                 }
             }
             if let Some(stderr) = stderr {
                 if stderr.as_raw_fd() != 2 {
                     posix::dup2(stderr.as_raw_fd(), 2)?;
+                } else {
+                    // already in place: it only has to survive the exec
+                    posix::fcntl(2, posix::F_SETFD, Some(0))?;
                 }
             }
             posix::reset_sigpipe()?;
